@@ -69,7 +69,11 @@ def rels(t):
 
 MEM_SPELL = [lambda v: (v, 'M'), lambda v: (v * 1024, 'K'), lambda v: (v, 'm'), lambda v: (v * 1024, 'k'),
              lambda v: (v // 1024, 'G') if v % 1024 == 0 and v else (v, 'M'),
-             lambda v: (v // 1024, 'g') if v % 1024 == 0 and v else (v, 'M')]
+             lambda v: (v // 1024, 'g') if v % 1024 == 0 and v else (v, 'M'),
+             # decimal two-letter units (size_to_bytes: powers of 1000): smallest mantissa
+             # that still means at least v MB
+             lambda v: (-(-v * 16384 // 15625), 'MB'), lambda v: (-(-v * 16384 // 15625), 'mb'),
+             lambda v: (-(-v * 2048 // 1953125), 'GB') if v >= 954 else (v, 'M')]
 CPU_SPELL = [lambda v: (v, '%'), lambda v: (v, '')]
 
 
